@@ -258,6 +258,24 @@ Definition css_escape_verdict (s out : bytes) : N :=
        | _, _ => 1
        end.
 
+(* ---- vocabulary of the tokenizer-level theorems (proofs/CssTokFacts.v, props/C15.v) ---- *)
+(* harmless characters: the documented alphabet of regular values plus ',' (defect D11) *)
+Definition hch (c : N) : bool := is_doc_regular_char_comma c.
+(* tokens that harmless text is made of *)
+Definition harmless_token (t : token) : bool :=
+  match t with
+  | TIdent _ | THash _ _ | TDelim _ | TNumber _ | TPercentage _ | TDimension _ _
+  | TWhitespace | TComma => true
+  | _ => false
+  end.
+(* a separator: one of , : ;  and its token *)
+Definition is_sep (c : N) : bool := (c =? 44) || (c =? 58) || (c =? 59).
+Definition sep_token (s : N) : token :=
+  if s =? 44 then TComma else if s =? 58 then TColon else TSemicolon.
+(* the property names of the emitted (= non-empty) fields, in the documented order *)
+Definition emitted_names (p : list pv) : list bytes :=
+  flat_map (fun e => match doc_emit p e with [] => [] | _ => [snd (fst e)] end) documented_fields.
+
 (* ---- side conditions on the regenerated data ("bridges") ---- *)
 (* the regenerated emission list is the documented one *)
 Definition triple_eqb (a b : bytes * bytes * N) : bool :=
